@@ -151,6 +151,19 @@ def run(ctx, prop):
             {"k": "interface", "name": "IGrid", "base": None, "members": [
                 {"k": "method", "name": "set", "optional": False, "doc": None, "params": [{"dir": "in", "type": "Grid", "arr": None, "name": "g"}, {"dir": "out", "type": "Row", "arr": None, "name": "r"}]}]}]
     work.append(("valid", {"id": "C06-deep", "files": [{"path": "main.idl", "nodes": deep}], "main": "main.idl", "incdirs": []}))
+    # sizes no test could allocate: members of 2^31 and 2^32 bytes and more (declarations only;
+    # sizeof / offsetof / size_of are compile-time facts)
+    huge = [{"k": "struct", "name": "Blk", "fields": [{"type": "uint8", "count": 65535, "name": "data"}, {"type": "uint8", "count": 1, "name": "last"}]},
+            {"k": "struct", "name": "HalfPlane", "fields": [{"type": "Blk", "count": 32768, "name": "rows"}, {"type": "uint64", "count": 1, "name": "seq"}]},
+            {"k": "struct", "name": "Plane", "fields": [{"type": "Blk", "count": 65535, "name": "rows"}, {"type": "Blk", "count": 1, "name": "spare"}]},
+            {"k": "struct", "name": "Cube", "fields": [{"type": "Plane", "count": 2, "name": "planes"}, {"type": "uint64", "count": 1, "name": "seq"}]},
+            {"k": "struct", "name": "Wide", "fields": [{"type": "uint64", "count": 65535, "name": "a"}, {"type": "Cube", "count": 3, "name": "cubes"}, {"type": "uint32", "count": 2, "name": "tail"}]}]
+    work.append(("valid", {"id": "C06-huge", "files": [{"path": "main.idl", "nodes": huge}], "main": "main.idl", "incdirs": []}))
+    # degenerate shapes the grammar refuses today (a struct without members has size 0 in C and
+    # Rust and size 1 in C++): if ever accepted, the layouts must still agree
+    work.append(("raw", {"id": "C06-empty", "main": "main.idl", "incdirs": [], "files": [{"path": "main.idl", "nodes": [
+        {"k": "struct", "name": "Tag", "fields": []},
+        {"k": "struct", "name": "Hdr", "fields": [{"type": "Tag", "count": 1, "name": "kind"}, {"type": "uint32", "count": 1, "name": "len"}]}]}]}))
     work += [("raw", permuted_case(i)) for i in range({"quick": 60, "thorough": 1500}[ctx.tier])]
     work += [("raw", raw_case(i)) for i in range({"quick": 150, "thorough": 3000}[ctx.tier])]
     hist["raw_rejected"] = 0
